@@ -138,6 +138,28 @@ def s1(otype, valid_only=False):
                 yield ("S1 %s.%s#%d" % (otype, s.key, i), Block(otype, items))
 
 
+def nest_path(otype):
+    """shortest containment path from another root type down to otype (None if otype is never nested)"""
+    best = None
+    for path in V.containment_paths():
+        if path[-1][2] == otype and path[0][0] != otype and (best is None or len(path) < len(best)):
+            best = path
+    return best
+
+
+def s1_nested(otype, valid_only=False):
+    """every S1 document of a type embedded at the end of its shortest containment path (LALR state depends on nesting)"""
+    path = nest_path(otype)
+    if path is None:
+        return
+    for label, tree in s1(otype, valid_only):
+        blk = tree
+        for parent, key, ct, how in reversed(path):
+            mk = {"child": child, "children": children, "inline": inline}[how]
+            blk = Block(parent, [mk(key, blk)])
+        yield (label.replace("S1 ", "S1n ", 1), blk)
+
+
 def neutral_before_after(otype, avoid):
     """neutral fillers: string keyword, child block, repeatable keyword"""
     f = filler_kws(otype, 2, avoid=avoid)
@@ -268,7 +290,9 @@ def build_path(path, variant):
 
 # S5: value-shape stress ------------------------------------------------------
 NUM_SPELLINGS = [("+1", 1), ("007", 7), ("1.0", 1.0), ("1e3", 1000.0), ("1E3", 1000.0), (".5", 0.5), ("5.", 5.0), ("-0", 0), ("-0.0", -0.0),
-                 ("1.5e-3", 0.0015), ("+.25", 0.25), ("12345678901234567890", 12345678901234567890)]
+                 ("1.5e-3", 0.0015), ("+.25", 0.25), ("12345678901234567890", 12345678901234567890),
+                 # values whose Python repr (what dumps writes) uses an exponent, with whole-number and fractional mantissa
+                 ("0.00001", 1e-05), ("10000000000000000.0", 1e16), ("1e22", 1e22), ("0.00000015", 1.5e-07), ("-0.00002", -2e-05), ("2.5e+17", 2.5e17)]
 
 
 def s5(otype):
@@ -314,7 +338,7 @@ def doc_units(names, tier, all_rep_pairs=None, triples=None):
     if triples is None:
         triples = tier == "thorough"
     for n in names:
-        if n in ("S1", "S2"):
+        if n in ("S1", "S2", "S1n"):
             us += [(n, t) for t in types]
         elif n == "S3":
             for t in types:
@@ -343,6 +367,8 @@ def iter_unit(unit, valid_only=False):
         return s1(unit[1], valid_only)
     if n == "S2":
         return s2(unit[1], valid_only)
+    if n == "S1n":
+        return s1_nested(unit[1], valid_only)
     if n == "S3":
         return s3_pairs(unit[1], unit[2], unit[3])
     if n == "S3t":
